@@ -287,7 +287,7 @@ impl Property for C14 {
         out.add("nan_rendering_expected", String::from_utf8_lossy(&ex.out).contains(NAN_TEXT) as u64);
         let n = sc.cmds.len() as u64;
         let chars = text.chars().count() as u64;
-        let budget = 20 * chars + 200 + 102 * n;
+        let budget = 20 * chars + 200 + 2002 * n;
         let mut split = 0u64;
         for level in 0u8..=2 {
             let mut s = sc.clone();
